@@ -106,6 +106,17 @@ CONTROLS = [
     ("control_unexpected_end_reported_as_unexpected_character", [], [(DD,
         "        } else {\n            Err(DataDecodingError::UnexpectedEnd)\n        }\n    }\n\n    fn is_empty",
         "        } else {\n            Err(DataDecodingError::UnexpectedCharacter(\"end of data\", 0))\n        }\n    }\n\n    fn is_empty")]),
+    ("control_decoder_rechecks_syndromes_after_correction", [], [(SB,
+        "            error[idx] = (GF(error[idx]) - *err).into();\n        }\n    }\n\n    Ok(())\n}",
+        "            error[idx] = (GF(error[idx]) - *err).into();\n        }\n    }\n\n    // belt and braces: the corrected block must have vanishing syndromes\n    let mut check = vec![GF(0); err_len];\n    let corrected = data\n        .iter()\n        .copied()\n        .step_by(stride)\n        .chain(error.iter().copied().step_by(stride));\n    if super::primitive_element_evaluation(corrected, &mut check) {\n        return Err(ErrorDecodingError::Malfunction);\n    }\n    Ok(())\n}")]),
+    ("control_parser_checks_columns_before_rows", [], [(PL,
+        "            if !alignment_ok {\n                return Err(BitmapConversionError::Alignment);\n            }\n\n            let rows",
+        "            let rows_ok = alignment_ok;\n\n            let rows"), (PL,
+        "                entries.extend_from_slice(&row[1..blk_w + 1]);\n                debug_assert_eq!(row[1..=blk_w].len(), blk_w);\n            }",
+        "                entries.extend_from_slice(&row[1..blk_w + 1]);\n                debug_assert_eq!(row[1..=blk_w].len(), blk_w);\n            }\n            if !rows_ok {\n                return Err(BitmapConversionError::Alignment);\n            }")]),
+    ("control_renderer_draws_bars_after_data", [], [(PL,
+        "        // copy the data\n        for (b_i, b) in self.entries.iter().enumerate() {\n            let mut i = b_i / self.width;\n            i += 1 + (i / blk_h) * 2;\n            let mut j = b_i % self.width;\n            j += 1 + (j / blk_w) * 2;\n            bits[idx(i, j)] = *b;\n        }\n",
+        "        // copy the data\n        for (b_i, b) in self.entries.iter().enumerate() {\n            let mut i = b_i / self.width;\n            i += 1 + (i / blk_h) * 2;\n            let mut j = b_i % self.width;\n            j += 1 + (j / blk_w) * 2;\n            bits[idx(i, j)] = *b;\n        }\n        for j in 0..w {\n            // (re)draw the bottom alignment last\n            bits[idx(h - 1, j)] = M::HIGH;\n        }\n")]),
     ("control_decoder_rejects_all_uncorrectable_words_early", [], [(SB,
         "    let t = err_len / 2;\n    let v = lambda_coeff.len() - 1;",
         "    let t = err_len / 2;\n    let v = lambda_coeff.len() - 1;\n    if v > t {\n        return Err(ErrorDecodingError::TooManyErrors);\n    }")]),
